@@ -37,5 +37,8 @@ FactAlgOK ==
     /\ KernelOK(A, K.has, K.K)
 TrtriAlgOK ==
   (cs.ph = 2 /\ cs.t = "trtri") =>
-    LET U == UpperIdx(cs.d[1], cs.a) IN TrtriOK(U, Trtri(U, 5, 2)) /\ TrtriOK(U, Trtri(U, 100, 2))
+    LET U == UpperIdx(cs.d[1], cs.a) IN
+    /\ TrtriOK(U, Trtri(U, 5, 2)) /\ TrtriOK(U, Trtri(U, 100, 2))
+    \* the table-based inversion: 1, 2 and 4 tables of width k = 1, 2 (blocks of up to 4 rows, tails of every length)
+    /\ \A k \in 1 .. 2, ntt \in {1, 2, 4} : TrtriOK(U, TrtriRussian(U, k, ntt))
 =============================================================================
